@@ -19,6 +19,8 @@ SPEC = {
         "C07: coq/C07/WithC06.v instantiates the abstract remapper with C06's model of quill's BRemapperImpl (coq/C06/Model.v, theorems of Props/C06.v): C07_composes_with_C06 rests on C06's model being faithful (C06's own correspondence run)",
         "C07: coq/C07/Model.v models the default methods of quill's ARemapper/BRemapper traits and remap_jar_entry_name_java / the entry loop of remap by hand; tied to the code by the correspondence run; remap_enum_const uses C18's models of FieldDescriptorSlice::parse and FieldName::check_valid",
         "C07: correspondence cases are written as text (grammar in coq/C07/Run.v), packed 7 bytes per Uint63 literal and decoded in Gallina (p_case / D7, evaluated by vm_compute with Coq's primitive 63-bit integers); a text that does not decode counts as a disagreement",
+        "C07: whole trees — coq/C07/Tree.v: the universe of tree values typed by the regenerated type definitions (has_ty), the generic interpreter remap_val of a table (impl dispatch, rows, class name handed down as CNone / CThisClass / CSelfName say, the joint positions Field/Method name+descriptor, EnclosingMethod, enum constants, dropped fields) and the specification spec_remap_val (from Spec.v and the type definitions only). The meaning of the table's action vocabulary (apply_leaf / apply_pos / pass_ctx) is hand-written and shared by interpreter and specification where both name the same remapper method; the interpreter is tied to remap.rs by the CTree correspondence cases (whole trees in, whole trees out)",
+        "C07: CTree cases: the harness serialises the `{:?}` rendering of duke's tree (harness/src/classfile/dbg.rs parser; the one custom rendering, Annotation, written back as its struct) without any knowledge of the class tree; the schema-directed reading into tree values (of_dbg in coq/C07/Run.v, flag words -> is_<word> fields, unit variants, tuple fields 0,1,..) is part of the comparison and is trusted as far as the comparison goes; f32/f64 leaves are compared through their Debug text (NaN payloads are not distinguished)",
         "C07: the harness oracle spec_remap (harness/src/bin/c07/spec.rs) is written from the same specification of reference positions, not from remap.rs, and uses the remapper's own answers; the zip container, duke's class writer (C02) and, for reading the output, the independent parser harness/src/classfile/raw.rs are trusted as far as the comparison goes",
     ],
     "assumptions": [
@@ -31,6 +33,8 @@ SPEC = {
     ],
     "stated_not_proved": [
         "every_ref_remapped_full / nothing_else_changes_full (coq/C07/Theory.v): the table theorems without the known_row restriction — refuted today by C07_every_ref_remapped_refuted / C07_nothing_else_changes_refuted (record components, module data)",
-        "remap_tree: a generic interpreter of the table over arbitrary class trees with the theorem `table rows satisfy Th1/Th2 => remap_tree = spec_remap on every tree` is not written; the step from rows to whole classes is covered by the correspondence run (every reference position of generated and corpus classes, before and after)",
+        "every_class_full: Th 6 (C07_remap_val_spec / C07_remap_class_spec) without the hypothesis `clean gen_table known_row v` — false today on classes with record components or module data (F18c, F18d: C07_tree_example, last clause; C07_every_ref_remapped_refuted)",
+        "remap_val = the Rust traversal of remap.rs is not a theorem (there is no Rust semantics here): it is the CTree correspondence (whole class trees of corpus and generated classes, input and output of remap_class, compared node by node with remap_val gen_table) plus the translator's fail-closed recognition of every impl body",
+        "the step from the tree returned by remap_class to the bytes in the output jar (duke's writer, C02; zip container) is covered by the spec_remap oracle on the re-opened jar, not by a theorem; F14v (frames not written) and F01p (parameter annotations not in duke's tree) live there",
     ],
 }
